@@ -600,3 +600,8 @@ def meta(results, tier):
                             'Lean lemma flat_inj (checked in setup_cmd; else obligations using it are undecided)',
                             'ignore sets other than () are covered by the bounded cell only'],
             'explanation': 'args_to_key executed for symbolic-length args/kwargs with an inductive loop invariant; wrappers executed against recorder cache and recorder function'}
+
+
+def post_process(results, tier):
+    from contracts import c03 as _c03
+    return _c03.dependency_rename('C16', results)
